@@ -176,7 +176,17 @@ def write_union(encoder, datum, schema, named_schemas, fname, options):
         # just to see if 'double' is a possibility, because we'd prefer it.
         could_be_float = False
 
+        # A "-type" hint selects exactly the record branch of that name
+        hint = datum["-type"] if isinstance(datum, dict) and "-type" in datum else None
+
         for index, candidate in enumerate(schema):
+            if hint is not None:
+                hinted = candidate
+                if extract_record_type(candidate) in named_schemas:
+                    hinted = named_schemas[extract_record_type(candidate)]
+                if extract_record_type(hinted) != "record" or hinted["name"] != hint:
+                    continue
+
             if could_be_float:
                 if extract_record_type(candidate) == "double":
                     best_match_index = index
